@@ -70,6 +70,7 @@ def close_seq(a, b, nd, tol=1e-9):
 def run(ctx):
     import numpy as np
     from dtaidistance import dtw, dtw_ndim, dtw_barycenter, dtw_cc
+    monitors.guard_backtracking(ctx)      # bounded progress for every back-tracking call, wherever it is made
     rng = ctx.rng
     N = ctx.scale(1500, 18000)
     for it in range(N):
